@@ -155,6 +155,9 @@ func (e *engine) runC10() {
 	// matches matrix: two different keys never share an ID
 	for i := 0; i < len(ids); i++ {
 		j := e.rng.Intn(len(ids))
+		if i%4 == 0 {
+			j = i // the key's own ID must match
+		}
 		pk, _ := crypto.UnmarshalEd25519PublicKey(pubs[j])
 		got := peer.ID(ids[i]).MatchesPublicKey(pk)
 		op := fmt.Sprintf("codec.matches id=%s pk=%s", lib.Hex(ids[i]), lib.Hex(pubs[j]))
